@@ -30,29 +30,37 @@ import (
 	"verif/internal/ev"
 )
 
+var trailingArgs = regexp.MustCompile(`\([^()]*\)$`)
+
 var hexAddr = regexp.MustCompile(`0x[0-9a-f]+|\+0x[0-9a-f]+|goroutine \d+|\d+ minutes`)
 
 // blockedFrames extracts, for goroutines that are inside a harness operation, a
 // normalised description of where they are blocked.
-func blockedFrames() []string {
+func blockedFrames() []string { return blockedFramesOf("verif/p37.(*driver).op") }
+
+func blockedFramesOf(marker string) []string {
 	buf := make([]byte, 4<<20)
 	n := runtime.Stack(buf, true)
 	var out []string
 	for _, g := range strings.Split(string(buf[:n]), "\n\n") {
-		if !strings.Contains(g, "verif/p37.(*driver).op") {
+		if !strings.Contains(g, marker) {
 			continue
 		}
 		lines := strings.Split(g, "\n")
 		var fr []string
 		for _, l := range lines[1:] {
 			if !strings.HasPrefix(l, "\t") {
-				fr = append(fr, hexAddr.ReplaceAllString(strings.SplitN(l, "(", 2)[0], ""))
+				fr = append(fr, trailingArgs.ReplaceAllString(l, ""))
 			}
 			if len(fr) >= 8 {
 				break
 			}
 		}
-		out = append(out, lines[0][strings.Index(lines[0], "["):]+" "+strings.Join(fr, " < "))
+		state := lines[0][strings.Index(lines[0], "["):]
+		if i := strings.IndexAny(state, ",]"); i > 0 {
+			state = state[:i] + "]" // drop the "N minutes" part: it changes between dumps
+		}
+		out = append(out, state+" < "+strings.Join(fr, " < "))
 	}
 	sort.Strings(out)
 	return out
@@ -353,6 +361,23 @@ func TestC37(t *testing.T) {
 		c.Count("runs_completed", 1)
 		// quiescence: C11 invariants over everything that was delivered
 		if !nd.Settle(net, tr, nil) {
+			// every client call returned but the engine's own vote-replay loop has not finished the
+			// notifications it was sent: stalled (violation) or merely slow (inconclusive)?
+			a := blockedFramesOf("casper.(*Casper).authVerificationLoop")
+			time.Sleep(10 * time.Second)
+			b := blockedFramesOf("casper.(*Casper).authVerificationLoop")
+			if !nd.Chain.VerifCasper().VerifEpochLoopIdle() && len(a) > 0 && strings.Join(a, "\n") == strings.Join(b, "\n") && !strings.Contains(a[0], "[running") && !strings.Contains(a[0], "[runnable") {
+				site := "unknown"
+				for _, part := range strings.Split(a[0], " < ") {
+					if strings.Contains(part, "github.com/bytom/bytom") {
+						site = strings.TrimSpace(part)
+						break
+					}
+				}
+				c.Violation("stall:cached-vote-loop:"+site, "the engine's vote-replay loop is blocked at the same frames for 40 s with unprocessed epoch notifications: the votes parked for those checkpoints are never applied",
+					map[string]interface{}{"blocked": a, "shape": tr.Shape(), "gomaxprocs": procs})
+				return
+			}
 			c.Inconclusive("engine did not settle")
 			return
 		}
